@@ -231,6 +231,10 @@ func (e *Expr) toks(out *[]tagTok, first bool) {
 			add("{")
 			body.toks(out, true)
 			add("}")
+		case e.Mod != "" && e.Style%3 == 2 && body.Kind == KGroup && body.Style%3 == 1 && (body.Mod == "?" || body.Mod == "*"):
+			// a modifier right behind a bracket group: `[ x ]+`, `{ x }!`
+			body.toks(out, first)
+			add(e.Mod)
 		case e.Mod != "" && e.Style%3 == 2 && (isLeaf(body) || body.Kind == KSub || body.Kind == KPars || body.Kind == KCap || body.Kind == KNeg):
 			// bare modifier on a single term: `@Ident?`, `"x"*`, `@@+`, `~";"*`
 			body.toks(out, first)
